@@ -32,6 +32,14 @@ pub enum Case {
         /// (limit, level) calls applied to the cached twin, in order
         calls: Vec<(u64, Option<u64>)>,
     },
+    /// patterns beyond the rule shape (top-level classes, counted repetitions, alternations, patterns that do not
+    /// compile): only transparency is checked (cached twin == never-cached twin), not agreement with a linear scan
+    RawTree {
+        ignore_case: bool,
+        patterns: Vec<String>,
+        haystacks: Vec<String>,
+        calls: Vec<(u64, Option<u64>)>,
+    },
 }
 
 /// recursively sort arrays so that hash-ordered collections compare equal
@@ -189,6 +197,57 @@ pub fn plain_tree_answers(ignore_case: bool, patterns: &[String], haystacks: &[S
             a
         })
         .collect()
+}
+
+pub const RAW_SETS: &[&[&str]] = &[
+    &["/n/a{2}x", "/n/a{3}y", "/n/ok"],
+    &["/a[bc]x", "/a[bd]y", "/a/plain"],
+    &["/z/q", "/a[bc]x", "/a[bd]y", "/a/plain"],
+    &["/x(a|b)c", "/x(a|c)d", "/x(a"],
+    &["/p/a+b", "/p/a+c", "/p/a"],
+    &["/q/a*", "/q/a?b", "/q/a{1,2}c"],
+    &["/r/\\d{2,3}z", "/r/\\d{2,4}y", "/r/\\d{2"],
+    &["/s/a|b", "/s/a|c", "/s/"],
+    &["/u/(?i)ab", "/u/(?i)ac"],
+    &["/v/x{", "/v/x{1", "/v/x"],
+    &["/w/[^/]+/a", "/w/[^/]+/b", "/w/[^"],
+    &["/y/\\p{Lu}x", "/y/\\p{Ll}x", "/y/\\p{"],
+    &["", "/", "//"],
+];
+
+pub const RAW_HAYSTACKS: &[&str] = &[
+    "/n/aax", "/n/aaay", "/n/ok", "/abx", "/ady", "/acx", "/a/plain", "/z/q", "/xac", "/xcd", "/xbc", "/p/aab", "/p/ac", "/p/a", "/q/", "/q/aaa", "/q/b", "/q/ab", "/q/aac", "/r/12z",
+    "/r/1234y", "/r/123y", "/s/a", "b", "c", "/s/", "/u/AB", "/u/ac", "/v/x{", "/v/x", "/v/x{1", "/w/k/a", "/w/k/b", "/y/Ax", "/y/ax", "", "/", "//", "/nope",
+];
+
+/// transparency only: the cached twin must answer exactly like the never-cached one (same values, same len)
+pub fn check_raw_tree(ignore_case: bool, patterns: &[String], haystacks: &[String], calls: &[(u64, Option<u64>)], obs: &mut Obs) -> Result<(), String> {
+    let plain = plain_tree_answers(ignore_case, patterns, haystacks);
+    let mut cached = RegexTreeMap::<u32>::new(ignore_case);
+    for (i, p) in patterns.iter().enumerate() {
+        cached.insert(p, &format!("id{i}"), i as u32);
+    }
+    for (n, (limit, level)) in calls.iter().enumerate() {
+        let left = cached.cache(*limit, *level);
+        obs.cache_calls += 1;
+        if left > *limit {
+            return Err(format!("cache({limit}, {level:?}) returned {left}"));
+        }
+        let st = c08::stats_of(&cached.verif_snapshot());
+        obs.cache_states.insert((st.compiled, st.total));
+        for (h, s) in haystacks.iter().enumerate() {
+            let mut b: Vec<u32> = cached.find(s).into_iter().copied().collect();
+            b.sort();
+            obs.comparisons += 1;
+            if plain[h] != b {
+                return Err(format!("raw patterns {patterns:?}: after cache calls {:?}: find({s:?}) uncached {:?}, cached {b:?}", &calls[..=n], plain[h]));
+            }
+        }
+        if cached.len() != patterns.len() {
+            return Err("len differs after cache".to_string());
+        }
+    }
+    Ok(())
 }
 
 pub fn check_tree_against(
@@ -401,6 +460,59 @@ pub fn run(ctx: &Ctx, _args: &Args) -> i32 {
             }
             report.count("tree_pattern_sets");
         }
+        // (2b) raw pattern sets beyond the rule shape: transparency only
+        for (set_index, set) in RAW_SETS.iter().enumerate() {
+            for ignore_case in [false, true] {
+                if (set_index * 2 + ignore_case as usize) % jobs != shard {
+                    continue;
+                }
+                let patterns: Vec<String> = set.iter().map(|p| p.to_string()).collect();
+                let haystacks: Vec<String> = RAW_HAYSTACKS.iter().map(|h| h.to_string()).collect();
+                let mut probe = RegexTreeMap::<u32>::new(ignore_case);
+                for (i, p) in patterns.iter().enumerate() {
+                    probe.insert(p, &format!("id{i}"), i as u32);
+                }
+                let st = c08::stats_of(&probe.verif_snapshot());
+                let mut singles: Vec<(u64, Option<u64>)> = Vec::new();
+                for limit in 0..=(st.total as u64 + 1) {
+                    for level in 0..=(st.depth as u64 + 1) {
+                        singles.push((limit, Some(level)));
+                    }
+                    singles.push((limit, None));
+                }
+                let mut all_calls: Vec<Vec<(u64, Option<u64>)>> = singles.iter().map(|c| vec![*c]).collect();
+                for a in &singles {
+                    for b in &singles {
+                        all_calls.push(vec![*a, *b]);
+                    }
+                }
+                for calls in all_calls {
+                    report.eval();
+                    let mut obs = Obs::default();
+                    match guarded(|| check_raw_tree(ignore_case, &patterns, &haystacks, &calls, &mut obs)) {
+                        Err(panic) => report.library_panic(&panic),
+                        Ok(Err(m)) => report.violation(
+                            "tree-cache-not-transparent",
+                            m,
+                            serde_json::to_value(Case::RawTree {
+                                ignore_case,
+                                patterns: patterns.clone(),
+                                haystacks: haystacks.clone(),
+                                calls: calls.clone(),
+                            })
+                            .unwrap(),
+                        ),
+                        Ok(Ok(())) => {
+                            if obs.cache_states.iter().any(|(c, t)| *c > 0 && c < t) {
+                                report.nontrivial_enumerated();
+                            }
+                        }
+                    }
+                    record_obs(&obs, report);
+                }
+                report.count("raw_tree_pattern_sets");
+            }
+        }
         // (3) thread stress on the shared RwLock<LazyRegex>
         for w in 0..stress_worlds {
             if w % jobs != shard {
@@ -433,7 +545,7 @@ pub fn run(ctx: &Ctx, _args: &Args) -> i32 {
     finish(
         ctx,
         report,
-        "twin routers driven by the C02 history generator (+ extra cache(n) calls, n in {None,0,1,2,3,5,8,10^6}) compared after every op on match ids, Route::capture of every matched route and the canonicalised serialisation of trace_request; trees: exhaustive (limit, level) and call pairs on small sets of the C08 catalogue vs uncached twin and linear scan; thread stress: 4 matching threads on an Arc<Router> while clones sharing the Arc<Route>s are cached. non-trivial = history / call sequence during which some but possibly not all regexes were compiled (cache state read through the hooks)",
+        "twin routers driven by the C02 history generator (+ extra cache(n) calls, n in {None,0,1,2,3,5,8,10^6}) compared after every op on match ids, Route::capture of every matched route and the canonicalised serialisation of trace_request; trees: exhaustive (limit, level) and call pairs on small sets of the C08 catalogue vs uncached twin and linear scan, plus 13 raw pattern sets beyond the rule shape (top-level classes, counted repetitions, alternations, uncompilable patterns; transparency only); thread stress: 4 matching threads on an Arc<Router> while clones sharing the Arc<Route>s are cached. non-trivial = history / call sequence during which some but possibly not all regexes were compiled (cache state read through the hooks)",
         &["the twin is the same library code without cache calls (metamorphic relation)", "regex crate for the linear scan of the tree part"],
         started,
         100,
@@ -461,6 +573,16 @@ pub fn replay(_ctx: &Ctx, case: &Value) -> i32 {
             haystacks,
             calls,
         } => match guarded(|| check_tree(*ignore_case, patterns, haystacks, calls, &mut Obs::default())) {
+            Err(p) => vec![format!("panic: {p}")],
+            Ok(Err(m)) => vec![m],
+            Ok(Ok(())) => vec![],
+        },
+        Case::RawTree {
+            ignore_case,
+            patterns,
+            haystacks,
+            calls,
+        } => match guarded(|| check_raw_tree(*ignore_case, patterns, haystacks, calls, &mut Obs::default())) {
             Err(p) => vec![format!("panic: {p}")],
             Ok(Err(m)) => vec![m],
             Ok(Ok(())) => vec![],
